@@ -449,6 +449,10 @@ func buildCompoundOperator(o interface{}, depth int, operator string) (string, b
 
 					return "", false, err
 				}
+				if _, isText := andarr[i].(string); isText {
+					// the string is a condition of its own, grouped like a nested object: F.A || F.B inside an and
+					operand = "(" + operand + ")"
+				}
 
 				ands = append(ands, operand)
 			}
